@@ -6,7 +6,7 @@ import re
 
 from .. import oracles as O
 from ..fold import Scope, dotted, src
-from .common import (attr_stores, ctx, ff_for, find_calls, must_pass, node_calls, own_nodes, path_text, substitute_src)
+from .common import (attr_stores, conj_of_facts, ctx, ff_for, find_calls, must_pass, node_calls, own_nodes, path_text, substitute_src)
 from .edscommon import ATTR_KEYS, E, OD, reader_pairs, signed_widths, writer_pairs
 
 EXPLANATION = (
@@ -20,7 +20,12 @@ EXPLANATION = (
     "indices/subindices writes names with the same object, deletions remove both, lookup consults both then the dotted "
     "form; R7 $NODEID: pattern accepts both orders, the node id in force (argument, else the file's NodeID parsed with "
     "base 0) reaches every build_variable call and both value conversions, relative flag from the raw text; R8 "
-    "object-type dispatch covers VAR, DOMAIN, ARR (compact and plain), RECORD, default VAR; R9 suffix dispatch."
+    "object-type dispatch covers VAR, DOMAIN, ARR (compact and plain), RECORD, default VAR; R9 suffix dispatch; R10 def-use "
+    "inside import_eds: index/sub-index of each section kind come from that section's own name, every object built is "
+    "added on every path to the next section, compact arrays get sub-index 0 (UNSIGNED8) and the template at 1, name "
+    "lists cover 1..NrOfEntries, comments/bit rate/baud-rate options/DeviceInfo stores; R11 implicit array members "
+    "(sub-indices 1..255, template = sub-index 1, attribute list, parent link), copy_variable changes only name and "
+    "sub-index, the indirect-type threshold leaves every standard type code alone."
 )
 ASSUMPTIONS = [
     "not decided: fidelity for every EDS text; configparser semantics are the trusted base",
@@ -457,6 +462,86 @@ def run(chk):
             else:
                 chk.bad("R10", f"{E}:import_eds | DeviceInfo value `{v[:50]}`", ie.loc(c), "neither the numeric conversion nor the verbatim text")
         chk.check(kinds_ == {"num", "str"}, "R10", f"{E}:import_eds | DeviceInfo: numeric and text options both stored", f"{E}:{imp_tab[1].lineno}", f"stores found for {sorted(kinds_)}")
+
+    # ------------------------------------------------------------------ R11 implicit array members, copies of the template, indirect types
+    ag = repo.func(OD, "ODArray.__getitem__", "C08.R11")
+    fa = ff_for(chk, ag, "C08.R11")
+    key_p = ag.params[1]
+    mk = [n for n in own_nodes(ag.node) if isinstance(n, ast.Assign) and isinstance(n.value, ast.Call) and (dotted(n.value.func) or "").endswith("ODVariable")]
+    chk.floor("R11", len(mk), 1, "implicit member construction in ODArray.__getitem__")
+    for n in mk:
+        c = n.value
+        vname = src(n.targets[0])
+        chk.check(len(c.args) == 3 and src(c.args[1]) == "self.index" and src(c.args[2]) == key_p, "R11", f"{OD}:ODArray.__getitem__ | implicit member carries the array's index and the requested sub-index",
+                  ag.loc(n), src(c))
+        facts = fa.facts_at(n)
+        guard = conj_of_facts([(e, p) for e, p in facts if key_p in src(e) and "var" not in [x.id for x in ast.walk(e) if isinstance(x, ast.Name)]])
+        verdicts = {}
+        for probe in (-1, 0, 1, 2, 127, 254, 255, 256, 1000):
+            g2 = substitute_src(guard, {f"isinstance({key_p}, int)": True, key_p: probe})
+            verdicts[probe] = folder.try_fold(g2, sc, "?")
+        want = {pr: 1 <= pr <= 255 for pr in verdicts}
+        if "?" in verdicts.values():
+            chk.unk("R11", f"{OD}:ODArray.__getitem__ | sub-index range of implicit members", ag.loc(n), f"guard `{src(guard)}` cannot be evaluated")
+        else:
+            chk.check({k: bool(v) for k, v in verdicts.items()} == want, "R11", f"{OD}:ODArray.__getitem__ | implicit members exist for sub-indices 1..255 only", ag.loc(n),
+                      f"guard `{src(guard)}` accepts {[k for k, v in verdicts.items() if v]}")
+        chk.check(any(src(e) == f"isinstance({key_p}, int)" and p for e, p in facts), "R11", f"{OD}:ODArray.__getitem__ | implicit members for integer keys only", ag.loc(n), "")
+        td = fa.raw_def_at("template", n)
+        chk.check(td is not None and src(td) == "self.subindices[1]", "R11", f"{OD}:ODArray.__getitem__ | template is sub-index 1", ag.loc(n), f"template = {src(td) if td is not None else '?'}")
+        chk.check(any(isinstance(m, ast.Assign) and src(m) == f"{vname}.parent = self" for m in own_nodes(ag.node)), "R11", f"{OD}:ODArray.__getitem__ | implicit member linked to the array", ag.loc(n), "")
+    cl = [l for l in own_nodes(ag.node) if isinstance(l, ast.For) and isinstance(l.iter, (ast.Tuple, ast.List))]
+    chk.floor("R11", len(cl), 1, "template attribute copy loop")
+    NEED = {"data_type", "unit", "factor", "min", "max", "default", "access_type", "description", "value_descriptions", "bit_definitions", "storage_location"}
+    for l in cl:
+        got = set(folder.try_fold(l.iter, sc, None) or ())
+        chk.check(NEED <= got, "R11", f"{OD}:ODArray.__getitem__ | attributes taken from the template", ag.loc(l), f"not copied: {sorted(NEED - got)}")
+        lv = src(l.target)
+        cps_ = [m for m in own_nodes(l) if isinstance(m, ast.Assign) and src(m) == f"var.__dict__[{lv}] = template.__dict__[{lv}]"] + \
+               [m for m in own_nodes(l) if isinstance(m, ast.Expr) and src(m.value) == f"setattr(var, {lv}, getattr(template, {lv}))"]
+        chk.check(len(cps_) == 1, "R11", f"{OD}:ODArray.__getitem__ | copy statement", ag.loc(l), "no `var.<attr> = template.<attr>` in the loop")
+        for m in cps_:
+            g = [(fa.norm(e, subst=False), p) for e, p in fa.facts_at(m) if lv in [x.id for x in ast.walk(e) if isinstance(x, ast.Name)]]
+            chk.check(g in ([], [(f"{lv} in template.__dict__", True)], [(f"{lv} not in template.__dict__", False)]), "R11", f"{OD}:ODArray.__getitem__ | copied whenever the template has it", ag.loc(m), f"{g}")
+            chk.check(any(fa.cfg.dominates(fa.cfg.node_of(k), fa.cfg.node_of(m)) for k in mk), "R11", f"{OD}:ODArray.__getitem__ | copy belongs to the implicit-member branch", ag.loc(m), "")
+    rs = [n for n in own_nodes(ag.node) if isinstance(n, ast.Raise)]
+    chk.check(any(isinstance(r.exc, ast.Call) and dotted(r.exc.func) == "KeyError" for r in rs), "R11", f"{OD}:ODArray.__getitem__ | unknown keys raise KeyError", ag.loc(), "")
+    cpv = repo.func(E, "copy_variable", "C08.R11")
+    fcp = ff_for(chk, cpv, "C08.R11")
+    rets = [n for n in own_nodes(cpv.node) if isinstance(n, ast.Return)]
+    okc = len(rets) == 1 and isinstance(rets[0].value, ast.Name)
+    if okc:
+        v = rets[0].value.id
+        d = fcp.raw_def_at(v, rets[0])
+        okc = d is not None and src(d) in ("copy.copy(src_var)", "copy.deepcopy(src_var)")
+        chk.check(okc, "R11", f"{E}:copy_variable | returns a copy of the template", cpv.loc(), f"{v} = {src(d) if d is not None else '?'}")
+        sts = {src(m.targets[0]): m for m in own_nodes(cpv.node) if isinstance(m, ast.Assign) and src(m.targets[0]).startswith(v + ".")}
+        chk.check(set(sts) == {f"{v}.name", f"{v}.subindex"}, "R11", f"{E}:copy_variable | only name and sub-index differ from the template", cpv.loc(), f"stores {sorted(sts)}")
+        if f"{v}.subindex" in sts:
+            chk.check(src(sts[f"{v}.subindex"].value) == "subindex", "R11", f"{E}:copy_variable | sub-index", cpv.loc(), src(sts[f"{v}.subindex"]))
+        if f"{v}.name" in sts:
+            nm = sts[f"{v}.name"].value
+            nd = fcp.raw_def_at(nm.id, sts[f"{v}.name"]) if isinstance(nm, ast.Name) else nm
+            chk.check(nd is not None and src(nd) == "eds.get(section, str(subindex))", "R11", f"{E}:copy_variable | name from the list entry of that sub-index", cpv.loc(), f"name = {src(nd) if nd is not None else '?'}")
+    else:
+        chk.unk("R11", f"{E}:copy_variable | shape", cpv.loc(), "expected one `return <name>`")
+    # indirect (manufacturer) data types: every standard type code is taken literally
+    th = [n for n in fb.cfg.nodes if n.kind == "test" and "var.data_type" in src(n.ast) and isinstance(n.ast, ast.Compare) and "SIGNED_TYPES" not in src(n.ast)
+          and "has_option" not in src(n.ast)]
+    chk.floor("R11", len(th), 1, "indirect data type test in build_variable")
+    for n in th:
+        wrong = []
+        for nm, (code, *_r) in O.DATA_TYPES.items():
+            r = folder.try_fold(substitute_src(n.ast, {"var.data_type": code}), sc, "?")
+            if r == "?":
+                chk.unk("R11", f"{E}:build_variable | `{src(n.ast)}`", bv.loc(n.ast), "cannot evaluate for a standard type code")
+                break
+            if r:
+                wrong.append(nm)
+        else:
+            r40 = folder.try_fold(substitute_src(n.ast, {"var.data_type": 0x40}), sc, "?")
+            chk.check(not wrong and r40 is True, "R11", f"{E}:build_variable | standard type codes taken literally, 0x40.. looked up", bv.loc(n.ast),
+                      f"`{src(n.ast)}` treats {wrong or 'nothing'} as an indirect type" + ("" if r40 is True else "; 0x40 is not looked up"))
 
     # ------------------------------------------------------------------ R9 suffix dispatch
     io = repo.func(OD, "import_od", "C08.R9")
